@@ -3,7 +3,7 @@
 id=$1; prop=${2:-${id%%_*}}; tier=${3:-quick}
 cd /verif
 if [ -n "$(git -C /repo status --porcelain --untracked-files=no)" ]; then echo "/repo not clean"; exit 2; fi
-git -C /repo apply /verif/seeded/$id/patch.diff || { echo "patch does not apply"; exit 2; }
+P=/verif/seeded/$id/patch.diff; [ -f /verif/seeded/$id/patch_rebased.diff ] && P=/verif/seeded/$id/patch_rebased.diff; git -C /repo apply $P || { echo "patch does not apply"; exit 2; }
 ./check $prop --tier $tier > /tmp/scratch/seeded_${id}_${prop}.log 2>&1; rc=$?
 git -C /repo checkout -- .
 echo "$id on $prop: exit=$rc $(grep -c '^VIOLATION' /tmp/scratch/seeded_${id}_${prop}.log) violation line(s): $(grep '^VIOLATION' /tmp/scratch/seeded_${id}_${prop}.log | head -1)"
